@@ -26,6 +26,9 @@ func c08Path(r *vRand, known []string) string {
 	return c08Paths[r.Intn(len(c08Paths))]
 }
 
+// paths a worker confined to its own directory may use (relative to that directory)
+var c13WorkerPaths = []string{"a", "b", "d", "d/a", "d/b", "e", "d/e", "x/y", "a/b", "d/", "./a", "d/./b"}
+
 func c08ErrObs(err error) string { return "VErr " + cfsErr(err) }
 
 func c08Bytes(b []byte) string { return `(B "` + hex.EncodeToString(b) + `")` }
@@ -41,7 +44,18 @@ type cfsSess struct {
 	mb     int
 	hs     []File
 	known  []string // paths that were created successfully at some point
+	prefix string   // non-empty: every path this session uses lies under this directory
 	tagset map[string]bool
+}
+
+func (se *cfsSess) pathWith(r *vRand, known []string) string {
+	if se.prefix == "" {
+		return c08Path(r, known)
+	}
+	if len(known) > 0 && r.Chance(1, 2) {
+		return known[r.Intn(len(known))]
+	}
+	return se.prefix + c13WorkerPaths[r.Intn(len(c13WorkerPaths))]
 }
 
 func (se *cfsSess) tag(s string) { se.tagset[s] = true }
@@ -117,9 +131,9 @@ func (se *cfsSess) randomOp(r *vRand, focus bool, i int, readonly bool, add func
 	}
 	switch {
 	case !readonly && (k < 18 || len(hs) == 0): // open
-		name := c08Path(r, known)
+		name := se.pathWith(r, known)
 		if focus {
-			name = "a"
+			name = se.prefix + "a"
 		}
 		acc := []int{2, 2, 2, 0, 1}[r.Intn(5)]
 		if focus {
@@ -277,7 +291,7 @@ func (se *cfsSess) randomOp(r *vRand, focus bool, i int, readonly bool, add func
 			tag("readdir-ok")
 		}
 	case k < 88: // mkdir
-		name := c08Path(r, nil)
+		name := se.pathWith(r, nil)
 		err := fs.Mkdir(name, 0755)
 		op := "OMkdir " + gStr(name)
 		if err != nil {
@@ -289,7 +303,7 @@ func (se *cfsSess) randomOp(r *vRand, focus bool, i int, readonly bool, add func
 			tag("mkdir-ok")
 		}
 	case k < 93: // rename
-		a, b := c08Path(r, known), c08Path(r, known)
+		a, b := se.pathWith(r, known), se.pathWith(r, known)
 		err := fs.Rename(a, b)
 		op := "ORename " + gStr(a) + " " + gStr(b)
 		if err != nil {
@@ -301,7 +315,7 @@ func (se *cfsSess) randomOp(r *vRand, focus bool, i int, readonly bool, add func
 			tag("rename-ok")
 		}
 	case k < 96: // remove
-		name := c08Path(r, known)
+		name := se.pathWith(r, known)
 		err := fs.Remove(name)
 		op := "ORemove " + gStr(name)
 		if err != nil {
@@ -312,7 +326,7 @@ func (se *cfsSess) randomOp(r *vRand, focus bool, i int, readonly bool, add func
 			tag("remove-ok")
 		}
 	default: // stat
-		name := c08Path(r, known)
+		name := se.pathWith(r, known)
 		fi, err := fs.Stat(name)
 		op := "OStat " + gStr(name)
 		if err != nil {
